@@ -52,6 +52,11 @@ CHECKS["C05"] = ("exploration",
   "16,000 (200,000) generated histories; the invariant needs no model, only what the API returns.",
   "Trusted: the reference validity predicate (model.rs). A null read back in a non-nullable string column counts as the empty string.",
   "DESIGN.md section 4, C05")
+CHECKS["C08"] = ("exploration",
+  "proptest-generated operation sequences; the bytes saved after every prefix (flush on the live package, every close mode, and fresh-package prefix replay) are decoded by an independent MSI decoder and compared differentially with the API snapshot; pool reference counts recomputed from all table cells",
+  "5,000 (100,000) histories with per-step decoding plus 800 (10,000) prefix sweeps; thorough adds the reference-count cap family (> 65,535 references to one string).",
+  "Trusted: the independent decoder (fmt.rs, self-tested against literal fixtures) and the cfb crate as a named-byte-stream store. Only the column type-word bits the format description fixes are compared (size, string, nullable, key, localizable, valid).",
+  "DESIGN.md section 4, C08")
 NOT_YET = {}
 
 def main():
